@@ -21,8 +21,8 @@ pub struct PwSpec {
     pub pool: Vec<B>,
 }
 
-pub const NKINDS: u8 = 11;
-pub const KIND_NAMES: [&str; 11] = [
+pub const NKINDS: u8 = 14;
+pub const KIND_NAMES: [&str; 14] = [
     "tag-Poly0",
     "Poly1",
     "Poly3",
@@ -34,6 +34,9 @@ pub const KIND_NAMES: [&str; 11] = [
     "composed: &f + &g",
     "tag-Log<Poly0>",
     "composed: -(linear()) / linear() * -2",
+    "PolyK (any degree 0..8)",
+    "Log<PolyK> (any degree)",
+    "IntOfLog<PolyK> (any degree)",
 ];
 
 impl PwSpec {
@@ -178,6 +181,44 @@ pub fn visit_pw<V: PwVisitor>(spec: &PwSpec, v: &mut V) -> V::Out {
             }
             v.visit(&spec.tag(), true)
         }
+        11 | 12 | 13 => {
+            // every degree of every generic piece family (type instantiation matters: size_of, alignment, unrolling)
+            let deg = (spec.pool.len() as u64 + spec.pool.first().map_or(0, |b| b.0.to_bits() >> 3) + ends.len() as u64) % 9;
+            let pool: Vec<f64> = if spec.pool.is_empty() { vec![1.0, 2.0, 3.0] } else { spec.pool.iter().map(|b| b.0).collect() };
+            let fam = spec.kind % NKINDS;
+            fn go<V: PwVisitor, T: crate::model::Nums + Evaluate>(v: &mut V, ends: &[f64], pool: &[f64]) -> V::Out {
+                v.visit(&crate::model::build_pw::<T>(ends, pool), false)
+            }
+            fn poly<P: crate::model::Nums + Evaluate, V: PwVisitor>(v: &mut V, ends: &[f64], pool: &[f64]) -> V::Out {
+                go::<V, P>(v, ends, pool)
+            }
+            fn logp<P: crate::model::Nums + Evaluate, V: PwVisitor>(v: &mut V, ends: &[f64], pool: &[f64]) -> V::Out {
+                go::<V, Log<P>>(v, ends, pool)
+            }
+            fn iolp<P: crate::model::Nums + Evaluate, V: PwVisitor>(v: &mut V, ends: &[f64], pool: &[f64]) -> V::Out {
+                go::<V, IntOfLog<P>>(v, ends, pool)
+            }
+            macro_rules! by_deg {
+                ($f:ident) => {
+                    match deg {
+                        0 => $f::<Poly0, V>(v, &ends, &pool),
+                        1 => $f::<Poly1, V>(v, &ends, &pool),
+                        2 => $f::<Poly2, V>(v, &ends, &pool),
+                        3 => $f::<Poly3, V>(v, &ends, &pool),
+                        4 => $f::<Poly4, V>(v, &ends, &pool),
+                        5 => $f::<Poly5, V>(v, &ends, &pool),
+                        6 => $f::<Poly6, V>(v, &ends, &pool),
+                        7 => $f::<Poly7, V>(v, &ends, &pool),
+                        _ => $f::<Poly8, V>(v, &ends, &pool),
+                    }
+                };
+            }
+            match fam {
+                11 => by_deg!(poly),
+                12 => by_deg!(logp),
+                _ => by_deg!(iolp),
+            }
+        }
         _ => {
             // &f + &g: f on all ends, g on every other end
             let f = spec.q4();
@@ -191,7 +232,7 @@ pub fn visit_pw<V: PwVisitor>(spec: &PwSpec, v: &mut V) -> V::Out {
 }
 
 pub fn pw_spec(max_len: usize) -> BoxedStrategy<PwSpec> {
-    let kind = prop_oneof![8 => Just(0u8), 1 => Just(1u8), 1 => Just(2u8), 1 => Just(3u8), 1 => Just(4u8), 1 => Just(5u8), 1 => Just(6u8), 1 => Just(7u8), 1 => Just(8u8), 2 => Just(9u8), 1 => Just(10u8)];
+    let kind = prop_oneof![8 => Just(0u8), 1 => Just(1u8), 1 => Just(2u8), 1 => Just(3u8), 1 => Just(4u8), 1 => Just(5u8), 1 => Just(6u8), 1 => Just(7u8), 1 => Just(8u8), 2 => Just(9u8), 1 => Just(10u8), 2 => Just(11u8), 1 => Just(12u8), 1 => Just(13u8)];
     let long = (max_len * 5).max(100);
     (kind, any::<bool>(), gen::ends_long(max_len, long, false), gen::ends(max_len, true), vec(gen::moderate(20), 7))
         .prop_map(|(kind, positive, e_any, e_pos, pool)| {
